@@ -669,7 +669,7 @@ fn main() {
     }
 
     // ------------------------------------------------------------------ 1. random structured histories
-    let n_cases = ses.scale(330, 9000);
+    let n_cases = ses.scale(1080, 27000);
     for ci in 0..n_cases {
         let kind = ALL_MINTERS[(ci % 9) as usize];
         let k = kind.idx();
@@ -797,7 +797,8 @@ fn main() {
                 _ => None,
             };
             let t = if let (Some(x), true) = (target, rng.chance(3, 5)) {
-                let c = *rng.pick(&[x - 1, x, x, x + 1, x + rng.below(HOUR)]);
+                let extra = rng.below(HOUR);
+                let c = *rng.pick(&[x - 1, x, x, x + 1, x + extra]);
                 c.max(g.now)
             } else if opk == "swl" && before_start && rng.chance(2, 3) {
                 g.now + rng.below(60_000_000_000)
@@ -969,6 +970,11 @@ fn main() {
     ses.note("probe = 4 real mint attempts (price−1, price, price+1, wrong denom) rolled back by cw-multi-test's own transaction cache (execute_multi with a failing sentinel message); the minter's raw storage is compared before/after every probe");
     if !denom_switch {
         ses.note("governance min-price changes are generated only on factories whose minimum is in the native denom (sudo only accepts the native denom, so on other factories every change switches the denom — see docs/C07.md, C07_denom_switch_counterexample); set C07_DENOM_SWITCH=1 to include them");
+    }
+    if std::env::var("C07_DEBUG").is_ok() {
+        for c in &ses.classes {
+            eprintln!("class {c}");
+        }
     }
     ses.finish(&mut sut);
 }
